@@ -67,6 +67,9 @@ func (v *VStruct) SetRule(rule RM, obj ...interface{}) *VStruct {
 	if l == 0 {
 		ty = validOnlyOuterObj // 只验证最外层 struct
 	} else if l == 1 {
+		if obj[0] == nil { // nil 没有类型信息, 无法确定是哪个结构体
+			return v
+		}
 		ty = RemoveTypePtr(reflect.TypeOf(obj[0]))
 		if ty == timeReflectType {
 			return v
